@@ -601,6 +601,14 @@ fn do_write(st: &gix_odb::loose::Store, c: &Case) -> Result<gix_hash::ObjectId, 
     r.map_err(|e| format!("{e}"))
 }
 
+/// remove an object file and its (then empty) fan-out directory
+fn unplace(p: &Path) {
+    let _ = std::fs::remove_file(p);
+    if let Some(d) = p.parent() {
+        let _ = std::fs::remove_dir(d);
+    }
+}
+
 fn place(id: &[u8], file: &[u8]) -> PathBuf {
     let p = root().join("objects").join(rel_path(id));
     std::fs::create_dir_all(p.parent().unwrap()).unwrap();
@@ -620,7 +628,7 @@ fn imp(c: &Case) -> String {
                     .map(|r| r.to_string_lossy().replace('\\', "/"))
                     .unwrap_or_else(|_| "?".into());
                 let s = format!("id={} path={} {}", id, rel, show_reads(&do_find(&st, &id), &do_header(&st, &id)));
-                let _ = std::fs::remove_file(&p);
+                unplace(&p);
                 s
             }
             Err(_) => "err:Write".into(),
@@ -629,7 +637,7 @@ fn imp(c: &Case) -> String {
             let id = gix_hash::ObjectId::from_bytes_or_panic(f_str(c, 1));
             let p = place(id.as_bytes(), f_str(c, 2));
             let s = show_reads(&do_find(&st, &id), &do_header(&st, &id));
-            let _ = std::fs::remove_file(&p);
+            unplace(&p);
             s
         }
         b"miss" => {
@@ -801,8 +809,8 @@ fn prop(c: &Case) -> Verdict {
                     Verdict::ok(true, "w-wrong-size")
                 }
             })();
-            let _ = std::fs::remove_file(&p);
-            let _ = std::fs::remove_file(st.object_path(&id));
+            unplace(&p);
+            unplace(&st.object_path(&id));
             v
         }
         b"raw" => {
@@ -874,7 +882,7 @@ fn prop(c: &Case) -> Verdict {
                     }
                 }
             })();
-            let _ = std::fs::remove_file(&p);
+            unplace(&p);
             v
         }
         b"miss" => {
